@@ -401,6 +401,9 @@ class C06(Engine):
 				c([run_op(fault={'kind': 'eacces@open', 'pick': 0.5, 'count': 1}), run_op()])
 				c([run_op(fault={'kind': 'eacces@open', 'pick': 0.5, 'count': 2}), run_op()])
 				c([run_op(True), {'op': 'edit', 'm': top, 'v': 2}, run_op(fault={'kind': 'eacces@open', 'pick': 0.0, 'count': 2}), run_op()])
+				# a transient lock on an existing output while its module shrinks (long -> short text) and while it grows
+				c([run_op(), {'op': 'edit', 'm': top, 'v': 2}, run_op(), {'op': 'edit', 'm': top, 'v': 0}, run_op(fault={'kind': 'eacces@open', 'pick': 0.0, 'count': 1}), run_op()])
+				c([run_op(), {'op': 'edit', 'm': leaf, 'v': 2}, run_op(fault={'kind': 'eacces@open', 'pick': 0.0, 'count': 1}), {'op': 'edit', 'm': leaf, 'v': 1}, run_op(fault={'kind': 'eacces@open', 'pick': 0.0, 'count': 1}), run_op()])
 		# a target whose dotted path is a substring of an earlier target's path (src.a after src.ab / src.a_b): each header must record its own module
 		rngs = random.Random(6)
 		sub = pools.gen_pool(rngs, shape='pairs', n_variants=3, allow_invalid=False, names=['src.ab', 'src.a_b', 'src.a', 'src.d'], swap_p=0.0, box_p=0.0)
